@@ -207,7 +207,9 @@ func (m *collection) mergerWaitForWork(pings []ping) (
 
 	m.m.Lock()
 
-	if m.stackDirtyTop == nil || len(m.stackDirtyTop.a) <= 0 {
+	// A batch that only touches child collections has no top-level
+	// segment, but is work for the merger all the same.
+	if m.stackDirtyTop == nil || m.stackDirtyTop.isEmpty() {
 		m.waitDirtyIncomingCh = make(chan struct{})
 		waitDirtyIncomingCh = m.waitDirtyIncomingCh
 	}
